@@ -45,6 +45,7 @@ PROPS = {
             {"name": "sweep", "run": "TestSweep", "kind": "plain", "shards": {Q: 2, T: 16}, "args": {Q: ["-rapid.checks=3"], T: ["-rapid.checks=40"]}},
             {"name": "model", "run": "TestModelUpdateList", "kind": "rapid", "checks": {Q: 8000, T: 1600000}, "shards": {Q: 2, T: 16}, "env": {"VERIF_TIER": "thorough"}},
             {"name": "periods", "run": "TestUnmentionedPeriods", "kind": "rapid", "checks": {Q: 6000, T: 600000}, "shards": {Q: 2, T: 8}},
+            {"name": "concurrent", "run": "TestConcurrentRestrictedUpdates", "kind": "plain", "shards": {Q: 2, T: 8}, "env": {"VERIF_ROUNDS": {Q: 300, T: 8000}}},
         ],
     },
     "C18": {
